@@ -148,6 +148,10 @@ def expressions(thorough: bool):
     # a notation-like plug whose map was built with descending keys (insertion order != key order)
     for d in prim[:4]:
         out.append(('inst', d, ((0, 14),)))
+        # constrained metavariables as plugs (positive / e_fresh / negative lists that differ from one another)
+        for i in (7, 10, 15, 16):
+            out.append(('inst', d, ((0, i),)))
+            out.append(('dinst', d, ((1, i),)))
         out.append(('dinst', d, ((1, 14), (0, 2))))
     ir = ('lemma', 'imp_refl', (0,))
     out.append(('lemma2', 'imp_transitivity', ir, ir))
